@@ -379,6 +379,59 @@ def passInt (t : ResTy) (v : Nat) : Nat :=
   | some (w, s) => extCode w s (v % 2 ^ 64)
   | none => v % 2 ^ 64
 
+/-! ## The interpreter's trampoline cache (`ff_interface_tab`, mir-interp.c:1711-1771)
+
+A trampoline generated by `_MIR_get_ff_call` is cached and reused for every later call whose
+*signature* compares equal under `ff_interface_eq`.  `Sig` is what `call` (mir-interp.c) hands to
+`get_ff_interface`; `ffKeyEq` transcribes `ff_interface_eq`. -/
+
+/-- signature of one native call as the interpreter sees it: result types, descriptors of *all*
+call arguments (named, then the variadic tail), number of named parameters of the prototype -/
+structure Sig where
+  res : List ResTy
+  args : List ArgTy
+  argVarsNum : Nat
+deriving DecidableEq, Repr
+
+/-- `MIR_type_t` codes (mir.h: I8,U8,I16,U16,I32,U32,I64,U64,F,D,LD,P,BLK..BLK+4,RBLK) -/
+def tyCode : ArgTy → Nat
+  | .i8 => 0 | .u8 => 1 | .i16 => 2 | .u16 => 3 | .i32 => 4 | .u32 => 5 | .i64 => 6 | .u64 => 7
+  | .f => 8 | .d => 9 | .ld => 10 | .p => 11
+  | .blk .b0 _ => 12 | .blk .b1 _ => 13 | .blk .b2 _ => 14 | .blk .b3 _ => 15 | .blk .b4 _ => 16
+  | .rblk _ => 17
+
+def resCode : ResTy → Nat
+  | .i8 => 0 | .u8 => 1 | .i16 => 2 | .u16 => 3 | .i32 => 4 | .u32 => 5 | .i64 => 6 | .u64 => 7
+  | .f => 8 | .d => 9 | .ld => 10 | .p => 11
+
+/-- `MIR_all_blk_type_p` -/
+def isAllBlk : ArgTy → Bool
+  | .blk _ _ | .rblk _ => true
+  | _ => false
+
+/-- `arg_descs[n].size` (meaningful for block types only) -/
+def tySize : ArgTy → Nat
+  | .blk _ s | .rblk s => s
+  | _ => 0
+
+/-- the argument loop of `ff_interface_eq`: type equal, and size equal for block types -/
+def argsKeyEq : List ArgTy → List ArgTy → Bool
+  | [], [] => true
+  | a :: as, b :: bs =>
+    tyCode a == tyCode b && (!isAllBlk a || tySize a == tySize b) && argsKeyEq as bs
+  | _, _ => false
+
+/-- `ff_interface_eq`: nres, nargs, arg_vars_num, `memcmp` of the result types, argument loop -/
+def ffKeyEq (s1 s2 : Sig) : Bool :=
+  s1.res.length == s2.res.length && s1.args.length == s2.args.length && s1.argVarsNum == s2.argVarsNum
+    && s1.res.map resCode == s2.res.map resCode && argsKeyEq s1.args s2.args
+
+/-- the cache as a function of the call history: the trampoline used for a call is the one generated
+for the *first* earlier signature that compares equal, else a fresh one for the call's own signature -/
+def cacheLookup (eq : Sig → Sig → Bool) : List Sig → Sig → Sig
+  | [], s => s
+  | t :: ts, s => if eq t s then t else cacheLookup eq ts s
+
 /-! ## Text protocol helpers (used by the driver) -/
 
 def Loc.str : Loc → String
